@@ -533,7 +533,7 @@ def collect(ck, rows, P, ev, netinfo, source, first=True):
             if kind in USES_Z:
                 if p["z"] is None:
                     ok = False
-                code += (p["sz"] or "-").upper() if kind in USES_XY else (p["sz"] or "-")
+                code += (p["sz"] or "-")        # e.g. "fF": xy free, z fixed ('F' fixed, 'f' free, 'c' constrained)
                 if p["sz"] in ("f", "c"):
                     mask[3 * s + 2] = 1.0
             stat.append(code)
@@ -1215,7 +1215,8 @@ RULE = ("design-matrix rows + right-hand sides of the linear systems gama builds
         "(b) gama-local on realistic determined networks of the shared generator, every linearisation of the run; "
         "(c) LocalLinearization asked directly (netdrv) for single observations, dictated orientations, all-fixed "
         "mixes; all 13 observation kinds.  evaluations = rows compared; class = (kind, quadrant/axis of the "
-        "sight(s) in gama's frame, status mix of the points, wrap side of the misclosure, consistent / y-flipped "
+        "sight(s) in gama's frame, status mix of the points from>to[>fs] with F fixed / f free / c constrained for "
+        "xy then z as far as the kind uses them, wrap side of the misclosure, consistent / y-flipped "
         "frame, dimension[, with/without heights]) measured on each row")
 
 
